@@ -1,10 +1,14 @@
 ---------------------------- MODULE ClientStartMC ----------------------------
 EXTENDS ClientStart
-AllScenarios == {[kind |-> "remote", step |-> st, how |-> "na"] :
+AllScenarios == {[kind |-> "remote", step |-> st, how |-> "na", pers |-> "F"] :
                     st \in {"healthy", "refuse_data", "unknown_ctx", "conn", "kill_hdr", "kill_self", "kill_addr", "kill_spawn", "kill_window"}}
-                \cup {[kind |-> "remote", step |-> st, how |-> h] :
+                \cup {[kind |-> "remote", step |-> st, how |-> h, pers |-> "F"] :
                     st \in {"hdr", "self", "addr0", "addrM", "addrL", "info0", "infoM", "infoL"}, h \in {"fin", "rst"}}
-                \cup {[kind |-> "process", step |-> st, how |-> "na"] : st \in {"healthy", "exit_early"}}
+                \cup {[kind |-> "remote", step |-> st, how |-> h, pers |-> pe] :
+                    st \in {"rinfo0", "rinfoM", "rinfoL"}, h \in {"fin", "rst"}, pe \in {"F", "T"}}
+                \cup {[kind |-> "process", step |-> st, how |-> "na", pers |-> "F"] : st \in {"healthy", "exit_early"}}
+\* known finding: a one-shot backend whose target does not end by itself (pers = "L") never looks at the data connection
+LongOneShot == {[kind |-> "remote", step |-> st, how |-> h, pers |-> "L"] : st \in {"rinfo0", "rinfoM", "rinfoL"}, h \in {"fin", "rst"}}
 FixAll == {"report", "srvclose"}
 FixNone == {}
 FixNoReport == {"srvclose"}
